@@ -11,34 +11,13 @@
 (*   mode     "clobber" (write_image) or "update" (read-modify-write, where an  *)
 (*            undefined sample never replaces a stored pixel),                 *)
 (*   passes   sequence of regions sampled one after another.                    *)
-(* Visit(pos) may happen in any order within a pass (worker processes).         *)
-EXTENDS ToastLattice
-CONSTANTS Depth, Filters, Modes, PassLists
-
-U == <<>>                                  \* the undefined pixel
-NPix == 2^K
-\* reachable leaves of the filtered pyramid (as in Reduce.tla, no sub-pyramid)
-RECURSIVE ReachAt(_, _)
-ReachAt(A, n) == IF n = 0 THEN {<<0, 0, 0>>}
-                 ELSE LET prev == ReachAt(A, n - 1) IN
-                      {p \in Positions(n) : p \in A /\ <<n - 1, p[2] \div 2, p[3] \div 2>> \in prev}
-Leaves(A) == ReachAt(A, Depth)
-FullFilter == UNION {Positions(n) : n \in 1..Depth}
-
-\* the tile's own pixel grid in display orientation: [r][c] = centre of tile (n+K, 2^K x + c, 2^K y + r)
-DisplayGrid(p) == IF p[1] = 0
-                  THEN [r \in 0..(NPix - 1) |-> [c \in 0..(NPix - 1) |-> Centre(K, c, r).pt]]     \* the whole-sphere tile
-                  ELSE LET t == TileAt(p)
-                           g == Sub(t.c[1], t.c[2], t.c[3], t.c[4], t.inc, K)
-                       IN [r \in 0..(NPix - 1) |-> [c \in 0..(NPix - 1) |-> g[<<r, c>>].pt]]
-InRegion(pt, reg) == reg[1] <= pt[1] /\ pt[1] < reg[2]          \* a band of lattice columns; <<0, S + 1>> = everything
-Sampled(p, reg) == LET g == DisplayGrid(p) IN
-                   [r \in 0..(NPix - 1) |-> [c \in 0..(NPix - 1) |-> IF InRegion(g[r][c], reg) THEN g[r][c] ELSE U]]
-\* rows as stored in the file
-Stored(grid, bottomUp) == [fr \in 0..(NPix - 1) |-> grid[IF bottomUp THEN NPix - 1 - fr ELSE fr]]
-AllU(grid) == \A r \in 0..(NPix - 1) : \A c \in 0..(NPix - 1) : grid[r][c] = U
-Merge(old, new) == [r \in 0..(NPix - 1) |-> [c \in 0..(NPix - 1) |-> IF new[r][c] = U THEN old[r][c] ELSE new[r][c]]]
-Blank == [r \in 0..(NPix - 1) |-> [c \in 0..(NPix - 1) |-> U]]
+(* Visit(pos) may happen in any order within a pass (worker processes); for     *)
+(* every tile the sampler returns its values in a representation of its own     *)
+(* choosing (byte order, memory layout, writability: SampleOps.tla) - what is    *)
+(* stored depends on the values only.                                          *)
+EXTENDS SampleOps
+CONSTANTS Filters, Modes, PassLists,
+          Reprs        \* the representations (SampleOps!AllReprs) the sampler may choose from, anew for every tile
 
 VARIABLES filter, bottomUp, mode, passes,    \* frozen configuration
           pass, todo, files                  \* current pass index, leaves still to visit in it, tile files (pos -> stored rows)
@@ -49,9 +28,9 @@ SInit == /\ filter \in Filters /\ bottomUp \in BOOLEAN /\ mode \in Modes /\ pass
 Absent(p) == p \notin DOMAIN files
 Put(p, rows) == [q \in DOMAIN files \cup {p} |-> IF q = p THEN rows ELSE files[q]]
 Drop(p) == [q \in DOMAIN files \ {p} |-> files[q]]
-Visit(p) ==
+Visit(p) == \E rep \in Reprs :
     /\ p \in todo /\ todo' = todo \ {p}
-    /\ LET new == Stored(Sampled(p, passes[pass]), bottomUp)
+    /\ LET new == Stored(Returned(p, passes[pass], rep), bottomUp)
            old == IF Absent(p) THEN Blank ELSE files[p]
            res == IF mode = "clobber" THEN new ELSE Merge(old, new)
        IN files' = IF AllU(res) THEN Drop(p) ELSE Put(p, res)       \* an all-undefined tile is not stored
@@ -75,8 +54,8 @@ FinalOK == Finished =>
     /\ \A p \in DOMAIN files : files[p] = Stored(ExpectedDisplay(p), bottomUp)
 \* intermediate: files only ever exist at leaves of the filtered pyramid, each pixel is either U or its own centre
 OnlyLeaves == DOMAIN files \subseteq LeafSet
-OwnPixels == \A p \in DOMAIN files : \A fr \in 0..(NPix - 1) : \A c \in 0..(NPix - 1) :
-               files[p][fr][c] \in {U, DisplayGrid(p)[IF bottomUp THEN NPix - 1 - fr ELSE fr][c]}
+OwnPixels == \A p \in DOMAIN files : LET g == DisplayGrid(p) IN \A fr \in 0..(NPix - 1) : \A c \in 0..(NPix - 1) :
+               files[p][fr][c] \in {U, g[IF bottomUp THEN NPix - 1 - fr ELSE fr][c]}
 \* C05's relation, restated for the whole-sphere tile: the level-0 grid is the four level-1 grids side by side
 T_Level0 == \A r \in 0..(NPix - 1) : \A c \in 0..(NPix - 1) :
               K >= 1 => LET h == NPix \div 2
